@@ -9,7 +9,23 @@ import shutil
 from vlib import core
 from checks import parsegen
 
-THEOREMS = ["C06_subst", "C06_old_refuted"]
+THEOREMS = ["C06_subst", "C06_resolved_closed", "C06_resolve_then_reduce", "C06_missing", "C06_cycle", "C06_group", "C06_old_refuted"]
+REGISTRY = {
+    "level": "proof",
+    "technique": "Coq proof (populate = substitution on the denotation; resolution leaves no foreign key; rejection lemmas) + differential "
+                 "correspondence of the whole loader against an executable inlining semantics",
+    "text": "C06_subst: for every value and argument map populate is exactly substitution on the value's pieces, inside components at any "
+            "depth; C06_resolved_closed / C06_resolve_then_reduce: after resolution no foreign key is left, for every project; C06_missing / "
+            "C06_cycle / C06_group: rejections. The full soundness statement (final values = source-level inlining semantics, independent of "
+            "declaration order) is kept as C06_sound_statement and is EVALUATED, not proved: the Coq predicate spec_C06 (source ASTs -> "
+            "expected pieces) runs on the real loader's final values for generated acyclic reference graphs (chains, arguments with "
+            "variables / nested $t / numbers / bools, namespaces, subkeys, nulls with inherits) and planted cycles / missing / group targets.",
+    "design_ref": "DESIGN.md §5 C06",
+    "note": "Trusted: Coq kernel + vm_compute; model Parser/Foreign.v tied by correspondence (h_parser project mode runs parse_locales); "
+            "ranges/plurals as targets (count arguments) are not in this fragment; Python generator. No axioms.",
+    "engine": "coq",
+    "packages": [("h_parser",)],
+}
 PROPS = "theories/Props/C06.v"
 PRE = ("From Coq Require Import List NArith ZArith.\nImport ListNotations.\n"
        "From LI Require Import Base.StrOps Parser.Parse Parser.Reduce Parser.Source Parser.Foreign Parser.ForeignCheck.\nOpen Scope N_scope.\n")
